@@ -66,6 +66,9 @@ def parse_output(out):
             res["failed_checks"].append({"check": cid, "description": desc, "location": loc})
     if res["result"] == "FAILURE" and res["failed_checks"] and all("unwinding assertion" in c["description"] for c in res["failed_checks"]):
         res["result"] = "UNWIND-BOUND-TOO-SMALL"
+    if res["result"] == "FAILURE" and not res["failed_checks"]:
+        # CBMC died (out of memory / killed): a resource verdict, never an alarm
+        res["result"] = "RESOURCE"
     m = re.search(r"Verification Time: ([\d.]+)s", out)
     if m:
         res["verification_time_s"] = float(m.group(1))
